@@ -25,6 +25,9 @@ DOT == 46
 HT == 9
 IsDigit(c) == c >= 48 /\ c <= 57
 HTTPSLASH == << 72, 84, 84, 80, 47 >>       \* "HTTP/"
+(* RFC 7230 tchar: what a header name is made of in the clean grammar *)
+IsTokenChar(c) == (c >= 48 /\ c <= 57) \/ (c >= 65 /\ c <= 90) \/ (c >= 97 /\ c <= 122)
+                  \/ c \in { 33, 35, 36, 37, 38, 39, 42, 43, 45, 46, 94, 95, 96, 124, 126 }
 
 (* ---- loose automaton (states are strings; "K0".."K4" spell HTTP/) ---- *)
 LooseStep(st, c) ==
@@ -53,16 +56,14 @@ StrictStep(st, c) ==
       [] st = "K3"     -> IF c = 80 THEN "K4" ELSE "FAIL"
       [] st = "K4"     -> IF c = 47 THEN "VMAJ0" ELSE "FAIL"
       [] st = "VMAJ0"  -> IF IsDigit(c) THEN "VMAJ1" ELSE "FAIL"
-      [] st = "VMAJ1"  -> IF c = DOT THEN "VMIN0" ELSE IF IsDigit(c) THEN "VMAJ1" ELSE "FAIL"
+      [] st = "VMAJ1"  -> IF c = DOT THEN "VMIN0" ELSE "FAIL"            \* "HTTP/x.y": one digit each (more: unspecified)
       [] st = "VMIN0"  -> IF IsDigit(c) THEN "VMIN1" ELSE "FAIL"
-      [] st = "VMIN1"  -> IF c = CR THEN "EOL1" ELSE IF c = LF THEN "FSTART"
-                          ELSE IF IsDigit(c) THEN "VMIN1" ELSE "FAIL"
+      [] st = "VMIN1"  -> IF c = CR THEN "EOL1" ELSE IF c = LF THEN "FSTART" ELSE "FAIL"
       [] st = "EOL1"   -> IF c = LF THEN "FSTART" ELSE "FAIL"
       [] st = "FSTART" -> IF c = CR THEN "EOL2" ELSE IF c = LF THEN "CONTENT"
-                          ELSE IF c = COLON \/ c = SP \/ c = HT THEN "FAIL" ELSE "FNAME"
+                          ELSE IF IsTokenChar(c) THEN "FNAME" ELSE "FAIL"
       [] st = "EOL2"   -> IF c = LF THEN "CONTENT" ELSE "FAIL"
-      [] st = "FNAME"  -> IF c = CR \/ c = LF \/ c = SP \/ c = HT THEN "FAIL"
-                          ELSE IF c = COLON THEN "FVALUE" ELSE "FNAME"
+      [] st = "FNAME"  -> IF c = COLON THEN "FVALUE" ELSE IF IsTokenChar(c) THEN "FNAME" ELSE "FAIL"   \* header names are tokens
       [] st = "FVALUE" -> IF c = CR THEN "EOL3" ELSE IF c = LF THEN "FSTART" ELSE "FVALUE"
       [] st = "EOL3"   -> IF c = LF THEN "FSTART" ELSE "FAIL"
       [] OTHER -> st
@@ -107,6 +108,7 @@ RECURSIVE BodyStart(_, _)
 BodyStart(b, o) ==
     IF o + 1 >= Len(b) THEN 0
     ELSE IF b[o + 1] = LF /\ b[o + 2] = LF THEN o + 2
+    ELSE IF o + 3 <= Len(b) /\ b[o + 1] = LF /\ b[o + 2] = CR /\ b[o + 3] = LF THEN o + 3
     ELSE IF o + 4 <= Len(b) /\ b[o + 1] = CR /\ b[o + 2] = LF /\ b[o + 3] = CR /\ b[o + 4] = LF THEN o + 4
     ELSE BodyStart(b, o + 1)
 
